@@ -104,6 +104,7 @@ type WorldRun struct {
 	MenuFilter func(w *worlds.World) func(depth int, prefix []int, item int) bool
 	Monitors   func(w *worlds.World) []explore.Monitor // overrides the check's monitors
 	OnTransition func(t *explore.Transition, newState bool) []explore.Violation
+	Prepare      func(w *worlds.World) // adjusts the world object before the search
 }
 
 // replayPayload is what a replay file of the explorer engine contains.
@@ -124,6 +125,9 @@ func RunExplore(c *Ctx, runs []WorldRun, mons func(w *worlds.World) []explore.Mo
 	var perWorld []map[string]interface{}
 	for _, r := range runs {
 		w := worlds.Get(r.World)
+		if r.Prepare != nil {
+			r.Prepare(w)
+		}
 		b := r.Quick
 		if !c.Quick() {
 			b = r.Thorough
@@ -149,7 +153,7 @@ func RunExplore(c *Ctx, runs []WorldRun, mons func(w *worlds.World) []explore.Mo
 				engine = e
 			}
 			c.Rep.Add(report.Item{Property: v.Property, Signature: v.Signature, Detail: fmt.Sprintf("world %s, history %s\n%s", v.World, v.Hist.String(), v.Detail), Engine: engine,
-				Replay: replayPayload{World: v.World, History: v.Hist, CheckFirst: r.CheckFirst}})
+				Replay: mergeExtra(replayPayload{World: v.World, History: v.Hist, CheckFirst: r.CheckFirst}, v.Extra)})
 		}
 		states += st.States
 		transitions += st.Transitions
@@ -202,4 +206,16 @@ func RunExplore(c *Ctx, runs []WorldRun, mons func(w *worlds.World) []explore.Mo
 	cv["worlds"] = perWorld
 	cv["rule"] = "breadth-first enumeration of all histories of the world within the bounds (every menu transaction list of length<=K in every block, every environment, <=T transactions, <=B blocks, closed by one empty block); every history is executed on a fresh real node; a case is non-trivial when the property's guarded mechanism fired (see DESIGN.md §6), distinct = distinct (depth, response-code vector)"
 	c.Ev.Assumptions = append(c.Ev.Assumptions, assumptions...)
+}
+
+// mergeExtra adds the engine-specific fields of a violation to the replay payload.
+func mergeExtra(p replayPayload, extra map[string]interface{}) interface{} {
+	if len(extra) == 0 {
+		return p
+	}
+	m := map[string]interface{}{"world": p.World, "history": p.History, "check_first": p.CheckFirst}
+	for k, v := range extra {
+		m[k] = v
+	}
+	return m
 }
